@@ -1024,8 +1024,12 @@ pub fn campaign(run: &mut Run, focus: Focus) {
         let tape: Vec<u32> = (0..500).map(|_| r.next() as u32).collect();
         let mut t = Tape::new(&tape);
         let s = build_sprite(&mut t, &small_cfg());
-        let plan = build_plan(&mut t);
+        let mut plan = build_plan(&mut t);
+        plan.pad_to = (0, 0); // tens of thousands of padding chunks would swamp the per-field sweep
         let e = encode(&s, &plan);
+        if e.fields.len() > 4000 {
+            continue;
+        }
         bases.push((format!("generated-{}", i), e.bytes, e.fields));
     }
     let goldens = golden_seeds();
@@ -1101,6 +1105,63 @@ pub fn campaign(run: &mut Run, focus: Focus) {
             }
         }
     }
+    // (B1b) pairs: two size/count/dimension fields of the same base inflated together (a cap that is itself
+    // declared by the file only gives way when both fields lie)
+    let mut pairs: Vec<(usize, usize, usize, u64, u64)> = vec![];
+    for (bi, (bname, _bytes, fields)) in bases.iter().enumerate().take(if thorough { 200 } else { 32 }) {
+        if !bname.starts_with("generated-") {
+            continue;
+        }
+        let idx: Vec<usize> = fields.iter().enumerate().filter(|(_, f)| matches!(f.kind, Kind::Size | Kind::Count | Kind::Dim) && f.len <= 4 && !f.name.starts_with("payload")).map(|(i, _)| i).collect();
+        for (a, &i) in idx.iter().enumerate() {
+            for &j in idx.iter().skip(a + 1) {
+                // only pairs that are close together (same or adjacent chunk / frame header + chunk)
+                if fields[j].off - fields[i].off > 96 {
+                    continue;
+                }
+                let max = |f: &Field| if f.len == 1 { 0xFFu64 } else if f.len == 2 { 0xFFFF } else { 0xFFFF_FFFF };
+                pairs.push((bi, i, j, max(&fields[i]), max(&fields[j])));
+                pairs.push((bi, i, j, max(&fields[i]) / 2 + 1, max(&fields[j]) / 2 + 1));
+                pairs.push((bi, i, j, max(&fields[i]) >> 4, max(&fields[j]) >> 4));
+            }
+        }
+    }
+    let pres = par_chunks(
+        lanes,
+        pairs.len() as u64,
+        || (Stats::default(), Vec::<Violation>::new()),
+        |acc, k| {
+            let (bi, i, j, vi, vj) = pairs[k as usize];
+            let (bname, bytes, fields) = &bases[bi];
+            let mut b = bytes.clone();
+            patch(&mut b, &fields[i], vi);
+            patch(&mut b, &fields[j], vj);
+            let v = pool.run((k % lanes as u64) as usize, &b, flags, k);
+            let ops = vec![format!("patch:{}+{}@{}={:#x}/{:#x}", fields[i].name, fields[j].name, fields[i].off, vi, vj), format!("base:{}", bname)];
+            match judge(focus, &b, &v, &ops, false) {
+                Ok(mut o) => {
+                    o.labels.retain(|l| !l.starts_with("op:"));
+                    o.labels.push("sweep-pair".into());
+                    acc.0.record(&o)
+                }
+                Err(fl) => {
+                    acc.0.evaluations += 1;
+                    if acc.1.len() < 2 && !acc.1.iter().any(|x| x.failure.signature == fl.signature) {
+                        acc.1.push(Violation { case: json!({"hex": hex(&b), "ops": ops}), failure: fl });
+                    }
+                }
+            }
+        },
+    );
+    for (st, viols) in pres {
+        run.stats.merge(st);
+        for v in viols {
+            if !run.is_known(&v.failure.signature) && run.violations.len() < 8 && !run.violations.iter().any(|x| x.failure.signature == v.failure.signature) {
+                run.violations.push(v);
+            }
+        }
+    }
+    run.extra.insert("pair_sweep_inputs".into(), json!(pairs.len()));
     run.extra.insert("sweep_inputs".into(), json!(work.len()));
     run.extra.insert("sweep_base_files".into(), json!(bases.len()));
 
